@@ -22,6 +22,9 @@
   (`strSerializeW`, `strDeserializeV`, `strRoundTrip`; `zoneText off` = `Z` for zero, else `+hh:mm`);
   Spec/TextFormsSpec.lean is the text of each value (`dateTextOf`, `timeText`, `naiveText 84` = date `T` time,
   `WholeMinute`); `DateInv` / `TStrict` (a leap second only on second :59) / `ZInv` are the invariants of C09.
+  Whole domain (section "the whole domain of the string forms"): Spec/SerdeStrAnySpec.lean (`roundMin`,
+  `zoneTextAny`, `shownTime`, `shownWallSecs`), Spec/ZonedSpec.lean (`wallSecs`, `InRangeSecs`); helper lemmas
+  Proofs/SerdeAnyFin.lean, SerdeAnyL.lean, SerdeAnyZonedL.lean, SerdeVisitL.lean.
 -/
 import Chrono.Proofs.SerdeL
 import Chrono.Proofs.SerdeStrL
@@ -29,6 +32,7 @@ import Chrono.Model.SerdeStr
 import Chrono.Extracted.SerdeLits
 import Chrono.Props.C19
 import Chrono.Proofs.SerdeAnyZonedL
+import Chrono.Proofs.SerdeVisitL
 
 namespace Chrono.Props.C20
 open Chrono Chrono.M Chrono.M.Serde Chrono.Spec Chrono.Spec.Ts Chrono.Spec.Serde Chrono.Proofs.Serde
@@ -153,6 +157,63 @@ theorem ts_exact_leap (tg : Target) (dt : NaiveDT) (h : NDTInv dt) :
   · exact ⟨by show (NaiveDT.timestamp dt).bind _ = _; rw [a1]; rfl,
       by show (NaiveDT.timestamp_millis dt).bind _ = _; rw [a2]; rfl,
       by show (NaiveDT.timestamp_micros dt).bind _ = _; rw [a3]; rfl⟩
+
+
+/-- leap-second representations, the remaining modules (audit LOW-2): the nanosecond modules write the
+position on the nanosecond line `instNs` (the fraction field ≥ 10⁹ counted as it is) when it fits `i64` and
+refuse otherwise; every `_option` module writes `Some` of what its plain module writes; never a panic -/
+theorem ts_exact_leap_full (tg : Target) (dt : NaiveDT) (h : NDTInv dt) :
+    serialize tg .nanos dt = .ok ((if isI64 (instNs dt) then SR.ok (instNs dt) else SR.err).map .i64) ∧
+    serialize_option tg .secs (some dt) = .ok (.ok (.some (instSecs dt))) ∧
+    serialize_option tg .millis (some dt) = .ok (.ok (.some (instNs dt / 1000000))) ∧
+    serialize_option tg .micros (some dt) = .ok (.ok (.some (instNs dt / 1000))) ∧
+    serialize_option tg .nanos (some dt) =
+      .ok ((if isI64 (instNs dt) then SR.ok (instNs dt) else SR.err).map .some) ∧
+    serialize_option tg .nanos none = .ok (.ok .none) := by
+  have a1 := timestamp_spec dt h
+  have a2 := timestamp_millis_spec dt h
+  have a3 := timestamp_micros_spec dt h
+  have a4 : NaiveDT.timestamp_nanos_opt dt = .ok (optI64 (instNs dt)) := by
+    unfold NaiveDT.timestamp_nanos_opt
+    rw [a1]
+    rfl
+  have hin : ∀ x : Int, inI64 x = true ↔ isI64 x := by
+    intro x
+    unfold inI64 isI64
+    have e1 : I64_MIN = -9223372036854775808 := rfl
+    have e2 : I64_MAX = 9223372036854775807 := rfl
+    simp only [Bool.and_eq_true, decide_eq_true_eq, e1, e2]
+  have n1 : (NaiveDT.timestamp_nanos_opt dt).bind (fun o => match ok_or o with
+      | .ok n => Res.ok (SR.ok (SOut.i64 n)) | .err => Res.ok SR.err) =
+      .ok ((if isI64 (instNs dt) then SR.ok (instNs dt) else SR.err).map .i64) := by
+    rw [a4]; unfold optI64
+    by_cases hi : isI64 (instNs dt)
+    · rw [if_pos hi, if_pos ((hin _).mpr hi)]; rfl
+    · rw [if_neg hi, if_neg (fun hh => hi ((hin _).mp hh))]; rfl
+  have n2 : (NaiveDT.timestamp_nanos_opt dt).bind (fun o => match ok_or o with
+      | .ok n => Res.ok (SR.ok (SOut.some n)) | .err => Res.ok SR.err) =
+      .ok ((if isI64 (instNs dt) then SR.ok (instNs dt) else SR.err).map .some) := by
+    rw [a4]; unfold optI64
+    by_cases hi : isI64 (instNs dt)
+    · rw [if_pos hi, if_pos ((hin _).mpr hi)]; rfl
+    · rw [if_neg hi, if_neg (fun hh => hi ((hin _).mp hh))]; rfl
+  cases tg
+  · exact ⟨n1, by show (NaiveDT.timestamp dt).bind _ = _; rw [a1]; rfl,
+      by show (NaiveDT.timestamp_millis dt).bind _ = _; rw [a2]; rfl,
+      by show (NaiveDT.timestamp_micros dt).bind _ = _; rw [a3]; rfl, n2, rfl⟩
+  · exact ⟨n1, by show (NaiveDT.timestamp dt).bind _ = _; rw [a1]; rfl,
+      by show (NaiveDT.timestamp_millis dt).bind _ = _; rw [a2]; rfl,
+      by show (NaiveDT.timestamp_micros dt).bind _ = _; rw [a3]; rfl, n2, rfl⟩
+
+/-- non-vacuity: the leap second 2015-06-30T23:59:60.5 in the nanosecond modules and an option module; a leap
+representation in the last second before the 64-bit nanosecond window closes is refused -/
+example :
+    NDTInv ⟨dateOfYo 2015 181, ⟨86399, 1500000000⟩⟩ ∧
+    serialize .utc .nanos ⟨dateOfYo 2015 181, ⟨86399, 1500000000⟩⟩ = .ok (.ok (.i64 1435708800500000000)) ∧
+    serialize_option .naive .millis (some ⟨dateOfYo 2015 181, ⟨86399, 1500000000⟩⟩) = .ok (.ok (.some 1435708800500)) ∧
+    serialize_option .utc .nanos (some ⟨dateOfYo 2262 101, ⟨85636, 1854775808⟩⟩) = .ok .err := by
+  unfold NDTInv
+  decide +kernel
 
 /-! ## the sixteen timestamp modules: what is read -/
 
@@ -421,6 +482,33 @@ theorem names_roundtrip (F : StrFormat) (hF : F.Faithful) :
     unfold strDeserialize strSerialize
     rw [hF]; dsimp only; rw [C19.month_parse_name]; rfl
 
+
+/-- reading weekday / month names from ARBITRARY text through any faithful text format (`Deserialize for
+Weekday` / `Month` = `visit_str` = `FromStr`): accepted as `w` exactly when the text, lower-cased, is the
+three-letter or the full English name of `w` (`Spec.weekdayShort/Long`, `monthShort/Long`; so `"MONDAY"`,
+`"mon"`, `"Mon"` all read as Monday and `"Mo"`, `"Mond"`, `" Mon"` are refused); what `Serialize` writes is one
+of these (`names_roundtrip`).  The result type has no panic. -/
+theorem names_deserialize_iff (F : StrFormat) (hF : F.Faithful) (s : List Nat) :
+    (∀ w : Weekday, strDeserialize F Weekday.parse (F.putStr s) = .ok w ↔
+      (lowerS s = weekdayShort w ∨ lowerS s = weekdayLong w)) ∧
+    (∀ m : Month, strDeserialize F Month.parse (F.putStr s) = .ok m ↔
+      (lowerS s = monthShort m ∨ lowerS s = monthLong m)) := by
+  constructor
+  · intro w
+    unfold strDeserialize
+    rw [hF, ← C19.weekday_parse_iff]
+    dsimp only
+    cases Weekday.parse s with
+    | none => exact ⟨fun h => (by cases h), fun h => (by cases h)⟩
+    | some v => exact ⟨fun h => (by injection h with h; rw [h]), fun h => (by injection h with h; rw [h]; rfl)⟩
+  · intro m
+    unfold strDeserialize
+    rw [hF, ← C19.month_parse_iff]
+    dsimp only
+    cases Month.parse s with
+    | none => exact ⟨fun h => (by cases h), fun h => (by cases h)⟩
+    | some v => exact ⟨fun h => (by injection h with h; rw [h]), fun h => (by injection h with h; rw [h]; rfl)⟩
+
 /-! ## zone-aware date-times: what the writer cannot express (witnesses of the known findings) -/
 
 /-- Kernel-checked witnesses of the known findings F20 and F22, independent of any reader: the text written
@@ -468,9 +556,10 @@ theorem string_forms_roundtrip_date (F : StrFormat) (hF : F.Faithful) (d : Date)
 
 /-- **NaiveTime** through any faithful text format (`collect_str(&self)`: `Display`, which forwards to
 `Debug` = `TextForms.time_debug`; `visit_str` = `FromStr` = `TextForms.time_from_str`).  Domain: every time
-of day whose leap-second representation, if any, sits on a second :59 (`TStrict`, the domain of C09; the
-values the public constructors build).  A nanosecond field ≥ 10⁹ on another second prints as the following
-second and does not come back — known finding F22, excluded by `TStrict`. -/
+of day whose leap-second representation, if any, sits on a second :59 (`TStrict`, the domain of C09: what
+`from_hms_nano_opt` and the parsers build; `Timelike::with_nanosecond` can put a nanosecond field ≥ 10⁹ on any
+second).  Such a value prints as the following second and does not come back — known finding F22, excluded
+here by `TStrict` and characterised for every such value by `time_roundtrip_nonstrict` / `time_roundtrip_any`. -/
 theorem string_forms_roundtrip_time (F : StrFormat) (hF : F.Faithful) (t : Time) (ht : TStrict t) :
     strSerializeW F NaiveTimeStr.serialize t = .ok (.ok (F.putStr (timeText t))) ∧
     strRoundTrip F NaiveTimeStr.serialize NaiveTimeStr.visit_str t = .ok (.ok t) := by
@@ -869,6 +958,47 @@ example :
     ZInv ⟨NaiveDT.MAX, 3600⟩ ∧ ¬ InRangeSecs (wallSecs ⟨NaiveDT.MAX, 3600⟩) := by
   unfold ZInv NDTInv OffValid InRangeSecs
   decide +kernel
+
+
+/-- **`visit_str` on ARBITRARY text** (audit LOW-5; not only on text a writer produced): for every byte
+string, each of the four string-form visitors — and the `DateTime<Utc>` / `DateTime<Local>` targets built on
+`DateTimeVisitor` — answers an error or a VALID value, never a panic; and so does `Deserialize` through ANY
+text format (faithful or not), whatever it stored.  (Parser totality: Proofs/C15TotalL.lean, property C15.) -/
+theorem visit_str_never_panics (s : List Nat) (tzOff : NaiveDT → Int) (htz : ∀ u, OffValid (tzOff u)) :
+    (∃ r, NaiveDateStr.visit_str s = .ok r ∧ ∀ d, r = .ok d → DateInv d) ∧
+    (∃ r, NaiveTimeStr.visit_str s = .ok r ∧ ∀ t, r = .ok t → TValid t) ∧
+    (∃ r, NaiveDateTimeStr.visit_str s = .ok r ∧ ∀ dt, r = .ok dt → NDTInv dt) ∧
+    (∃ r, DateTimeStr.deserialize_fixed s = .ok r ∧ ∀ z, r = .ok z → ZInv z) ∧
+    (∃ r, DateTimeStr.deserialize_utc s = .ok r ∧ ∀ z, r = .ok z → ZInv z ∧ z.off = 0) ∧
+    (∃ r, DateTimeStr.deserialize_local tzOff s = .ok r ∧ ∀ z, r = .ok z → ZInv z ∧ z.off = tzOff z.utc) :=
+  ⟨Chrono.Proofs.SerdeVisit.date_total s, Chrono.Proofs.SerdeVisit.time_total s,
+    Chrono.Proofs.SerdeVisit.naive_total s, Chrono.Proofs.SerdeVisit.fixed_total s,
+    Chrono.Proofs.SerdeVisit.mapped_total s (fun _ => 0) (fun _ => by unfold OffValid; omega),
+    Chrono.Proofs.SerdeVisit.mapped_total s tzOff htz⟩
+
+/-- … through any text format, whatever was stored -/
+theorem deserialize_str_never_panics (F : StrFormat) (e : F.E) (tzOff : NaiveDT → Int)
+    (htz : ∀ u, OffValid (tzOff u)) :
+    (∃ r, strDeserializeV F NaiveDateStr.visit_str e = .ok r ∧ ∀ d, r = .ok d → DateInv d) ∧
+    (∃ r, strDeserializeV F NaiveTimeStr.visit_str e = .ok r ∧ ∀ t, r = .ok t → TValid t) ∧
+    (∃ r, strDeserializeV F NaiveDateTimeStr.visit_str e = .ok r ∧ ∀ dt, r = .ok dt → NDTInv dt) ∧
+    (∃ r, strDeserializeV F DateTimeStr.deserialize_fixed e = .ok r ∧ ∀ z, r = .ok z → ZInv z) ∧
+    (∃ r, strDeserializeV F DateTimeStr.deserialize_utc e = .ok r ∧ ∀ z, r = .ok z → ZInv z ∧ z.off = 0) ∧
+    (∃ r, strDeserializeV F (DateTimeStr.deserialize_local tzOff) e = .ok r ∧
+      ∀ z, r = .ok z → ZInv z ∧ z.off = tzOff z.utc) := by
+  unfold strDeserializeV
+  cases F.getStr e with
+  | none =>
+    exact ⟨⟨_, rfl, fun _ h => by cases h⟩, ⟨_, rfl, fun _ h => by cases h⟩, ⟨_, rfl, fun _ h => by cases h⟩,
+      ⟨_, rfl, fun _ h => by cases h⟩, ⟨_, rfl, fun _ h => by cases h⟩, ⟨_, rfl, fun _ h => by cases h⟩⟩
+  | some s => exact visit_str_never_panics s tzOff htz
+
+/-- non-vacuity: the hypotheses are met by a non-UTF-8 byte string and a local zone at +05:30 (the parsers
+are defined by well-founded recursion, so concrete readings are compared with the crate, ops `sd.*.de`, not
+evaluated in the kernel) -/
+example : ∃ r, DateTimeStr.deserialize_local (fun _ => 19800) [0xff, 0x00, 0x3a] = .ok r ∧
+    ∀ z, r = .ok z → ZInv z ∧ z.off = 19800 :=
+  (visit_str_never_panics [0xff, 0x00, 0x3a] (fun _ => 19800) (fun _ => by unfold OffValid; omega)).2.2.2.2.2
 
 /-- non-vacuity of the string-form theorems: the first date of the range (signed six-digit year), a leap
 second with a fraction, the last representable naive value, and the leap second 2016-12-31T23:59:60.5Z seen
